@@ -725,9 +725,17 @@ def thread(stmts):
             tails = []
             if _tails([s1], tails) and tails and all(t and isinstance(t[-1], ast.Assign) and len(t[-1].targets) == 1 and isinstance(t[-1].targets[0], ast.Name)
                                                    and t[-1].targets[0].id == var for t in tails) \
-                    and any(isinstance(t[-1].value, ast.Constant) for t in tails):
+                    and any(isinstance(t[-1].value, ast.Constant) for t in tails) and _try_tails_ok(s1, tails):
                 for t in tails:
                     val = t[-1].value
+                    if isinstance(s1, ast.Try) and t is s1.body:
+                        # what follows the try statement is not covered by its handlers: it continues in the `else` clause
+                        if isinstance(val, ast.Constant):
+                            taken = s2.body if _static_truth(s2.test, var, val.value) else s2.orelse
+                            s1.orelse.extend(_ConstSubst(var, val).visit(x) for x in _clone(taken))
+                        else:
+                            s1.orelse.append(_clone(s2))
+                        continue
                     if isinstance(val, ast.Constant):
                         taken = s2.body if _static_truth(s2.test, var, val.value) else s2.orelse
                         t.extend(_ConstSubst(var, val).visit(x) for x in _clone(taken))
@@ -738,6 +746,22 @@ def thread(stmts):
                 continue
         i += 1
     return changed
+
+
+def _try_tails_ok(s1, tails):
+    """Code that follows a `try` may be threaded into the handlers' tails and - as an `else` clause - after the body, never
+    into the protected body itself (the handlers would start catching what the moved code raises)."""
+    if not isinstance(s1, ast.Try):
+        return True
+    if s1.orelse or s1.finalbody:
+        return False
+    inside_body = {id(x) for st in s1.body for x in ast.walk(st)}
+    for t in tails:
+        if t is s1.body:
+            continue
+        if t and id(t[-1]) in inside_body:
+            return False
+    return True
 
 
 def tidy(fn_node):
